@@ -16,7 +16,7 @@ STUBS = [
 ]
 ASSUMPTIONS = [
     "streams of 0..3 messages with payloads of 0..8 bytes; one message per stream has symbolic header bytes (ids, interface version and declared length free; protocol version / message type / return code from a valid and an undefined value; arbitrary declared length when it is the last message of the stream), the others symbolic ids with a consistent length",
-    "chunking: the stream is fed in up to three chunks at solver-chosen cut positions (every position), then EOF; the stream may end at any position",
+    "chunking: the stream is fed in up to three chunks at solver-chosen cut positions (every position), then EOF - the chunks arriving while the reader waits, or everything buffered before the reader starts, or the last chunk and the EOF in one loop iteration; the stream may end at any position",
     "long messages (payload up to 4096) are exercised concretely on the real StreamReader in the thorough tier (H18L)",
 ]
 REACH = {"H18": ["h18.message", "h18.reject", "h18.incomplete", "h18.clean-end"], "H18L": ["h18.message"]}
@@ -68,6 +68,19 @@ class SymStreamReader:
     def at_eof(self):
         return self._eof and not self._buf
 
+    async def read(self, n=-1):
+        if n == 0:
+            return b""
+        while not self._buf and not self._eof:
+            self._waiter = self._loop.create_future()
+            await self._waiter
+        if n < 0:
+            out, self._buf[:] = self._buf[:], []
+        else:
+            n = int(n)
+            out, self._buf[:] = self._buf[:n], self._buf[n:]
+        return mk_sym(out)
+
     async def readexactly(self, n):
         if n < 0:
             raise ValueError("readexactly size can not be less than zero")
@@ -109,7 +122,7 @@ def _datagram_view(E, M, raw):
     return msgs, ("end", idx)
 
 
-def _run_stream(E, M, loop, chunks):
+def _run_stream(E, M, loop, chunks, mode="spread"):
     hdr = M.header
     reader = SymStreamReader(loop) if E.symbolic else asyncio.StreamReader(loop=loop)
     got = []
@@ -129,13 +142,33 @@ def _run_stream(E, M, loop, chunks):
             except hdr.ParseError:
                 term.append("reject")
                 return
+            except Exception as exc:  # noqa: BLE001 - any other exception type is a finding
+                term.append("other:" + type(exc).__name__)
+                return
             got.append(m)
 
+    def feed(ch):
+        if len(ch):
+            reader.feed_data(ch if not isinstance(ch, list) else mk(E, ch))
+
+    if mode == "prefed":
+        # everything (and the EOF) is already buffered when the consumer starts
+        for ch in chunks:
+            feed(ch)
+        reader.feed_eof()
+        loop.call(lambda: loop.create_task(consume()))
+        loop.settle()
+        return got, term
     loop.call(lambda: loop.create_task(consume()))
     t = 1
-    for ch in chunks:
-        if len(ch):
-            loop.deliver(t, lambda ch=ch: reader.feed_data(ch if not isinstance(ch, list) else mk(E, ch)), may_defer=False)
+    for k, ch in enumerate(chunks):
+        last = k == len(chunks) - 1
+        if last and mode == "eof-with-last":
+            # the last data and the EOF arrive in the same loop iteration
+            loop.deliver(t, [lambda ch=ch: feed(ch), reader.feed_eof], may_defer=False)
+            loop.settle()
+            return got, term
+        loop.deliver(t, lambda ch=ch: feed(ch), may_defer=False)
         loop.settle()
         t += 1
     loop.deliver(t, reader.feed_eof, may_defer=False)
@@ -153,6 +186,7 @@ def _compare(E, M, got, term, dmsgs, dterm):
     kind = dterm[0]
     E.reach({"reject": "h18.reject", "incomplete": "h18.incomplete", "end": "h18.clean-end"}[kind])
     if term:
+        E.require(not term[0].startswith("other"), "the stream reader raises only the library's parse error or an incomplete-read error", {"stream": term[0], "datagram": kind})
         # a clean end and an end inside a message both surface as an incomplete-read error
         # from the stream (never as a truncated message); a reject must be a reject
         E.require((term[0] == "reject") == (kind == "reject"), "a header that datagram decoding rejects is rejected by the stream reader at the same message position; a stream that ends (inside a message or between messages) produces an incomplete-read error", {"stream": term[0], "datagram": kind, "index": dterm[1]})
@@ -182,7 +216,7 @@ def h18(E, M, case):
     cuts = sorted(E.choice("cut%d" % k, L + 1) for k in range(case["cuts"])) if L else []
     bounds_ = [0] + cuts + [L]
     chunks = [raw[a:b] for a, b in zip(bounds_, bounds_[1:])]
-    got, term = _run_stream(E, M, loop, chunks)
+    got, term = _run_stream(E, M, loop, chunks, E.pick("feed", ["spread", "prefed", "eof-with-last"]))
     loop_clean(E, loop)
     dmsgs, dterm = _datagram_view(E, M, raw)
     _compare(E, M, got, term, dmsgs, dterm)
